@@ -22,7 +22,11 @@ import (
 
 const addTok = token.ADD
 
-func runReadFromSim(c *Ctx, ruleAlien, ruleMissing string) {
+func runReadFromSim(c *Ctx, ruleAlien, ruleMissing string, ruleSrcFailOpt ...string) {
+	ruleSrcFail := ""
+	if len(ruleSrcFailOpt) > 0 {
+		ruleSrcFail = ruleSrcFailOpt[0]
+	}
 	p := c.P
 	rf := p.Func("smf", "ReadFrom")
 	smfT := p.namedType("smf", "SMF")
@@ -30,21 +34,29 @@ func runReadFromSim(c *Ctx, ruleAlien, ruleMissing string) {
 	if first == "" {
 		first = ruleMissing
 	}
+	if first == "" {
+		first = ruleSrcFail
+	}
 	if rf == nil || smfT == nil {
 		c.Unk(first, "ReadFrom simulation anchors", "-", "not resolved")
 		return
 	}
 	c.Fn(FuncName(rf))
-	for _, declared := range []int64{2, 3} {
+	for _, declared := range []int64{2, 3, -2} {
 		rule := ruleAlien
 		if declared == 3 {
 			rule = ruleMissing
+		}
+		srcFail := declared < 0
+		if srcFail {
+			rule, declared = ruleSrcFail, 2
 		}
 		if rule == "" {
 			continue
 		}
 		ex := NewExec(p)
 		ex.Unroll = 12
+		ex.ReaderMayFail = srcFail
 		st := ex.NewState()
 		k8 := func(v int64) Val { return mkConst(v, 8, false) }
 		str := func(s string) []Val {
@@ -84,6 +96,9 @@ func runReadFromSim(c *Ctx, ruleAlien, ruleMissing string) {
 		rd := ex.readerOver(st, src)
 		outs := ex.Call(st, rf, []Val{rd, &SliceV{Nil: true, Off: mkConst(0, 64, true), Len: mkConst(0, 64, true), Cap: mkConst(0, 64, true)}}, nil)
 		key := fmt.Sprintf("whole-file read simulation (header declares %d tracks, file holds 2)", declared)
+		if srcFail {
+			key = "whole-file read simulation with a failing source"
+		}
 		if ex.Budget || len(outs) == 0 {
 			c.Unk(rule, key, p.Pos(rf.Pos()), fmt.Sprintf("abstract interpretation did not complete (budget=%v, stats=%+v)", ex.Budget, ex.Stats))
 			continue
@@ -95,6 +110,34 @@ func runReadFromSim(c *Ctx, ruleAlien, ruleMissing string) {
 			break
 		}
 		if bad {
+			continue
+		}
+		if srcFail {
+			// C10: the source fails (sticky, non-EOF) at some Read -> the call must end in a definite error
+			okF, whyF, nF, nOK := true, "", 0, 0
+			for _, o := range outs {
+				if o.Panic {
+					continue
+				}
+				ev, _ := o.Ret[1].(*IfaceV)
+				failedAt := ""
+				for _, e := range o.St.Events {
+					if e.Kind == "sim:read-failed" {
+						failedAt = e.Pos
+					}
+				}
+				if failedAt == "" {
+					if ev != nil && ev.Nil {
+						nOK++
+					}
+					continue
+				}
+				nF++
+				if ev == nil || ev.Nil || (ev.Unk && !ev.NonNil) {
+					okF, whyF = false, "the source failed at the Read issued from "+failedAt+" (a non-EOF error, nothing delivered, sticky) and ReadFrom returns "+valString(o.Ret[1])+": a silently shortened file ["+outcomeWitness(o)+"]"
+				}
+			}
+			c.Check(okF && nF > 0 && nOK > 0, rule, "whole-file read simulation: a source failure at any Read ends in an error", p.Pos(rf.Pos()), fmt.Sprintf("%d outcomes in which some Read of the source failed: all return a definite error; %d outcomes without failure return nil", nF, nOK), whyF)
 			continue
 		}
 		ok, why := true, ""
